@@ -207,7 +207,7 @@ def cases(tier, seed):
         for a in ALGS:
             if a in ("Cholesky", "Lanczos") and not psd:
                 continue
-            if a == "Arnoldi" and tier == "quick" and size(t) > 0 and t[0] not in ("kron", "matmul", "BlockDiag", "Kronecker"):
+            if a == "Arnoldi" and tier == "quick" and size(t) > 0 and t[0] not in ("kron", "matmul", "BlockDiag", "Kronecker", "T", "H"):
                 continue
             out.append([t, a])
     # determinants far outside the double range (both tiny and huge): sizes 240-400, entries ~ 1/200 or ~ 200
